@@ -18,6 +18,9 @@
           | "ok"                           begin, rollback, commit, vacuum, analyze, mkix, batch, endbatch
           | "-"                            not compared (after a failed DML statement)
 
+  Two further kinds of lines: `rule <TABLES> <IX> | <PLAN>` (what every transformation rule makes of the root of a plan) and
+  `ord <DELIVERED> <REQUIRED>` (PhysicalProperties::satisfies); their syntax is given where they are handled, below.
+
   The specification is the reference evaluator of C05 run over the history: indexes, statistics, VACUUM and the
   placement of index creation do not exist in it (`stats_irrelevant`), a rolled-back session leaves no trace.
   On top of that the driver evaluates every plain query (no aggregates) through the plan algebra of Model/Plan: the bound
@@ -125,7 +128,8 @@ def planDefects (flags : List String) : Plan.Defects :=
     helpersSkipForms := flags.contains "helpersSkipForms"
     memoIgnoresPredicates := flags.contains "memoIgnoresPredicates"
     assocDropsBOnly := flags.contains "assocDropsBOnly"
-    indexScanIgnoresNullable := flags.contains "indexScanIgnoresNullable" }
+    indexScanIgnoresNullable := flags.contains "indexScanIgnoresNullable"
+    orderingPrefixEitherWay := flags.contains "orderingPrefixEitherWay" }
 
 /-- number of reachable plans checked, or the first plan that disagrees with the reference rows -/
 def crossCheck (D : Plan.Defects) (st : Store) (q : Select) (out : List Row) : Except String Nat :=
@@ -302,10 +306,36 @@ def ruleStep (D : Plan.Defects) (line : String) : String :=
         | _ => "bad-op"
   | _ => "bad-op"
 
+/-! ### ordering cases: `ord <DELIVERED> <REQUIRED>` → does the delivered ordering satisfy the required one
+
+    DELIVERED := "-" | DK ("," DK)*     DK := "a"<col> | "d"<col> (a plain column, ascending / descending) | "x" | "y"
+                                              (an expression that is no plain column, ascending / descending)
+    REQUIRED  := "-" | RK ("," RK)*     RK := "a"<col> | "d"<col>
+    answer    := "sat" | "unsat"        PhysicalProperties::satisfies; `unsat` = extract_plan puts a Sort in between -/
+
+def parseOrdKey (w : String) : Option OrdKey :=
+  match numAfter "a" w with
+  | some c => some { col := c, asc := true }
+  | none => (numAfter "d" w).map fun c => { col := c, asc := false }
+
+def parseDKey (w : String) : Option DKey :=
+  if w == "x" || w == "y" then some none else (parseOrdKey w).map some
+
+def ordStep (D : Plan.Defects) (line : String) : String :=
+  match words line with
+  | ["ord", dw, rw] =>
+    let ds := if dw == "-" then some [] else allSome ((dw.splitOn ",").map parseDKey)
+    let rs := if rw == "-" then some [] else allSome ((rw.splitOn ",").map parseOrdKey)
+    match ds, rs with
+    | some ds, some rs => if satisfies D ds rs then "sat" else "unsat"
+    | _, _ => "bad-op"
+  | _ => "bad-op"
+
 end AxVerif.Plan
 
 namespace AxVerif.Drivers
 def plan (flags : List String) (line : String) : String :=
   if line.startsWith "rule " then AxVerif.Plan.ruleStep (AxVerif.Plan.planDefects flags) line
+  else if line.startsWith "ord " then AxVerif.Plan.ordStep (AxVerif.Plan.planDefects flags) line
   else AxVerif.Plan.step flags line
 end AxVerif.Drivers
